@@ -10,8 +10,21 @@ package invoices_test
 //   TestVerifC15Free    seeded free-running driver: two goroutines ("links")
 //                       call NotifyExitHopHtlc concurrently (Par ... Join blocks)
 //
+// Circuit keys: the model's circuits 1..4 stand for concrete (short channel
+// id, HTLC id) pairs chosen by the behaviour's key pattern kp (c15KeyOf, the
+// value classes of spec/InvoiceRegistry KeyOf): confirmed scids, alias scids
+// (>= 2^63), the int64 boundary, 2^64-1, large HTLC ids, keys that differ in
+// one component only.  The Reset record reports the classes of the keys used.
+//
+// The interceptor client (the REAL HtlcModificationInterceptor with a
+// registered client) answers CancelSet for the HTLCs whose event has cs = 1.
+//
+// The projection of the invoices is read back from the STORE
+// (InvoiceDB.LookupInvoice) after every event.
+//
 // Trace format (one NDJSON record per step, every field on every line):
-//   a th c k pl h ad amt tot exp set good ht k1 k2      the event (as generated)
+//   a th c k pl h ad amt tot exp set good cs ht k1 k2 kp   the event (as generated)
+//   ck[c] = {ch id n}                                   Reset: value classes of the circuit keys used
 //   res why preok err                                   direct answer
 //   hodl[c] = {kd why preok}                            resolutions that arrived on hodl channels
 //   inv[k] = {ex st paid rem extra h[c]={st amt tot ah exp at}}   LookupInvoice projection
@@ -29,6 +42,7 @@ import (
 	"testing"
 	"time"
 
+	"github.com/btcsuite/btcd/chainhash/v2"
 	"github.com/lightningnetwork/lnd/amp"
 	"github.com/lightningnetwork/lnd/channeldb"
 	"github.com/lightningnetwork/lnd/clock"
@@ -62,9 +76,11 @@ type c15Ev struct {
 	Exp  int    `json:"exp"`
 	Set  string `json:"set"`
 	Good int    `json:"good"`
+	Cs   int    `json:"cs"`
 	Ht   int    `json:"ht"`
 	K1   string `json:"k1"`
 	K2   string `json:"k2"`
+	Kp   string `json:"kp"`
 }
 
 type c15AmpSet struct {
@@ -81,6 +97,12 @@ type c15Msg struct {
 type c15Run struct {
 	t      *testing.T
 	reg    *invpkg.InvoiceRegistry
+	idb    invpkg.InvoiceDB
+	kp     string
+	keys   [c15NC + 1]invpkg.CircuitKey // concrete circuit key of circuit c (0 unused)
+	keyIdx map[invpkg.CircuitKey]int
+	armMu  sync.Mutex
+	armed  map[invpkg.CircuitKey]bool // HTLCs for which the interceptor client answers CancelSet
 	clk    *clock.TestClock
 	cfg    *invpkg.RegistryConfig
 	sig    chan time.Duration
@@ -137,9 +159,98 @@ func c15Features(kind string) *lnwire.FeatureVector {
 	return lnwire.NewFeatureVector(raw, lnwire.Features)
 }
 
-func c15NewRun(t *testing.T, store string, k1, k2 string, seed int64) *c15Run {
-	r := &c15Run{t: t, kinds: [2]string{k1, k2}, memo: map[int]*c15Ev{},
-		hashOf: map[int]lntypes.Hash{}, sets: map[string]*c15AmpSet{}}
+// ---------------------------------------------------------------------------
+// circuit keys
+
+const c15I63 = uint64(1) << 63
+
+var c15Chans = map[string]lnwire.ShortChannelID{
+	"low":    {BlockHeight: 1, TxIndex: 2, TxPosition: 3},
+	"i63m":   lnwire.NewShortChanIDFromInt(c15I63 - 1),
+	"i63":    lnwire.NewShortChanIDFromInt(c15I63),
+	"alias":  {BlockHeight: 16_000_000, TxIndex: 0, TxPosition: 1},
+	"alias2": {BlockHeight: 16_000_000, TxIndex: 0, TxPosition: 2},
+	"max":    lnwire.NewShortChanIDFromInt(^uint64(0)),
+}
+
+// c15KeyOf is the concrete circuit key of circuit c under pattern kp (the
+// table of KeyOf in spec/InvoiceRegistry/InvoiceRegistry.tla).
+func c15KeyOf(kp string, c int) invpkg.CircuitKey {
+	pick := func(l ...string) string { return l[c-1] }
+	ch, id := "low", "n"
+	switch kp {
+	case "plain":
+	case "alias":
+		ch = "alias"
+	case "chanonly":
+		ch, id = pick("low", "alias", "i63m", "i63"), "same"
+	case "edge":
+		ch, id = pick("i63m", "i63", "max", "max"), pick("n", "n", "n", "max")
+	case "bigid":
+		ch, id = pick("low", "low", "alias", "alias"), pick("i63m", "i63", "i63n", "max")
+	case "mixed":
+		ch, id = pick("alias", "low", "alias2", "alias"), pick("n", "n", "n", "i63n")
+	default:
+		panic("unknown key pattern " + kp)
+	}
+	var n uint64
+	switch id {
+	case "n":
+		n = uint64(c)
+	case "same":
+		n = 7
+	case "i63m":
+		n = c15I63 - 1
+	case "i63":
+		n = c15I63
+	case "i63n":
+		n = c15I63 + uint64(c)
+	case "max":
+		n = ^uint64(0)
+	}
+	return invpkg.CircuitKey{ChanID: c15Chans[ch], HtlcID: n}
+}
+
+// c15KeyClass reports the value classes of a concrete key (from the values).
+func c15KeyClass(key invpkg.CircuitKey) verifkit.Rec {
+	ch := "other"
+	for name, v := range c15Chans {
+		if v == key.ChanID {
+			ch = name
+		}
+	}
+	id, n := "other", 0
+	switch x := key.HtlcID; {
+	case x == 7:
+		id = "same"
+	case x >= 1 && x <= c15NC:
+		id, n = "n", int(x)
+	case x == c15I63-1:
+		id = "i63m"
+	case x == c15I63:
+		id = "i63"
+	case x > c15I63 && x <= c15I63+c15NC:
+		id, n = "i63n", int(x-c15I63)
+	case x == ^uint64(0):
+		id = "max"
+	}
+	return verifkit.Rec{"ch": ch, "id": id, "n": n}
+}
+
+func c15NewRun(t *testing.T, store string, k1, k2, kp string, seed int64) *c15Run {
+	if kp == "" {
+		kp = "plain"
+	}
+	r := &c15Run{t: t, kinds: [2]string{k1, k2}, kp: kp, memo: map[int]*c15Ev{},
+		hashOf: map[int]lntypes.Hash{}, sets: map[string]*c15AmpSet{},
+		keyIdx: map[invpkg.CircuitKey]int{}, armed: map[invpkg.CircuitKey]bool{}}
+	for c := 1; c <= c15NC; c++ {
+		r.keys[c] = c15KeyOf(kp, c)
+		r.keyIdx[r.keys[c]] = c
+	}
+	if len(r.keyIdx) != c15NC {
+		t.Fatalf("key pattern %s: keys not distinct", kp)
+	}
 	r.rng = rand.New(rand.NewSource(seed))
 	r.base = testTime
 	tickSig := make(chan time.Duration)
@@ -183,6 +294,27 @@ func c15NewRun(t *testing.T, store string, k1, k2 string, seed int64) *c15Run {
 		}
 		idb = db
 	}
+	r.idb = idb
+
+	// the real interceptor service with a registered client that answers
+	// CancelSet for the armed circuit keys and leaves every other HTLC alone
+	icpt := invpkg.NewHtlcModificationInterceptor()
+	if err := icpt.Start(); err != nil {
+		t.Fatal(err)
+	}
+	t.Cleanup(func() { _ = icpt.Stop() })
+	_, _, err := icpt.RegisterInterceptor(
+		func(req invpkg.HtlcModifyRequest) (*invpkg.HtlcModifyResponse, error) {
+			r.armMu.Lock()
+			defer r.armMu.Unlock()
+			return &invpkg.HtlcModifyResponse{
+				CancelSet: r.armed[req.ExitHtlcCircuitKey],
+			}, nil
+		},
+	)
+	if err != nil {
+		t.Fatal(err)
+	}
 
 	// the expiry watcher gets a clock of its own that never moves: no
 	// invoice expires by time in this harness
@@ -192,7 +324,7 @@ func c15NewRun(t *testing.T, store string, k1, k2 string, seed int64) *c15Run {
 	cfg := invpkg.RegistryConfig{
 		FinalCltvRejectDelta: c15RejectDelta,
 		HtlcHoldDuration:     1000 * time.Hour,
-		HtlcInterceptor:      &invpkg.MockHtlcModifier{},
+		HtlcInterceptor:      icpt,
 		AcceptKeySend:        true,
 		Clock:                r.clk,
 	}
@@ -311,6 +443,14 @@ func (r *c15Run) call(p *c15Ev, ht int) (invpkg.HtlcResolution, lntypes.Hash, er
 	switch p.Pl {
 	case "legacy":
 		hash = r.hash[p.H-1]
+		// a total_amount_msat in the payload, but neither MPP record nor path id
+		payload.totalAmtMsat = lnwire.MilliSatoshi(p.Tot) * c15Unit
+	case "blinded":
+		// blinded path: path id + total amount in the payload, no MPP record
+		hash = r.hash[p.H-1]
+		pathID := chainhash.Hash(r.addrOf(p.Ad))
+		payload.pathID = &pathID
+		payload.totalAmtMsat = lnwire.MilliSatoshi(p.Tot) * c15Unit
 	case "mpp":
 		hash = r.hash[p.H-1]
 		payload.mpp = record.NewMPP(lnwire.MilliSatoshi(p.Tot)*c15Unit, r.addrOf(p.Ad))
@@ -336,8 +476,19 @@ func (r *c15Run) call(p *c15Ev, ht int) (invpkg.HtlcResolution, lntypes.Hash, er
 		payload.mpp = record.NewMPP(lnwire.MilliSatoshi(p.Tot)*c15Unit, r.addrOf(p.Ad))
 		payload.amp = record.NewAMP(share, s.id, uint32(p.C))
 	}
+	key := r.keys[p.C]
+	if p.Cs == 1 {
+		r.armMu.Lock()
+		r.armed[key] = true
+		r.armMu.Unlock()
+		defer func() {
+			r.armMu.Lock()
+			delete(r.armed, key)
+			r.armMu.Unlock()
+		}()
+	}
 	res, err := r.reg.NotifyExitHopHtlc(hash, lnwire.MilliSatoshi(p.Amt)*c15Unit,
-		uint32(c15BaseHeight+p.Exp), int32(c15BaseHeight+ht), getCircuitKey(uint64(p.C)),
+		uint32(c15BaseHeight+p.Exp), int32(c15BaseHeight+ht), key,
 		r.hodl[c15Link(p.C)], nil, payload)
 	return res, hash, err
 }
@@ -370,7 +521,7 @@ func (r *c15Run) drain(into map[int][]c15Msg) {
 			select {
 			case m := <-ch:
 				res := m.(invpkg.HtlcResolution)
-				c := int(res.CircuitKey().HtlcID)
+				c := r.keyIdx[res.CircuitKey()] // 0: a key that was never used
 				msg := c15Msg{preok: 1}
 				switch x := res.(type) {
 				case *invpkg.HtlcSettleResolution:
@@ -429,7 +580,8 @@ func (r *c15Run) snapshot(rec verifkit.Rec) {
 			hs[c] = verifkit.Rec{"st": "none", "amt": 0, "tot": 0, "ah": 0, "exp": 0, "at": 0}
 		}
 		one := verifkit.Rec{"ex": 0, "st": "open", "paid": 0, "rem": 0, "extra": 0, "h": hs}
-		inv, err := r.reg.LookupInvoice(context.Background(), r.hash[k])
+		// read back from the store, not through the registry
+		inv, err := r.idb.LookupInvoice(context.Background(), invpkg.InvoiceRefByHash(r.hash[k]))
 		if err == nil {
 			one["ex"] = 1
 			one["st"] = c15States[inv.State]
@@ -437,9 +589,9 @@ func (r *c15Run) snapshot(rec verifkit.Rec) {
 			one["rem"] = int(inv.AmtPaid % c15Unit)
 			extra := 0
 			for key, h := range inv.Htlcs {
-				c := int(key.HtlcID)
-				if c < 1 || c > c15NC || key.ChanID != getCircuitKey(0).ChanID {
-					extra++
+				c, ok := r.keyIdx[key]
+				if !ok {
+					extra++ // an HTLC under a circuit key that was never used
 					continue
 				}
 				at := -1
@@ -521,8 +673,17 @@ func (r *c15Run) barrier() {
 
 func (r *c15Run) base15(ev *c15Ev, th int) verifkit.Rec {
 	return verifkit.Rec{"a": ev.A, "th": th, "c": ev.C, "k": ev.K, "pl": ev.Pl, "h": ev.H, "ad": ev.Ad,
-		"amt": ev.Amt, "tot": ev.Tot, "exp": ev.Exp, "set": ev.Set, "good": ev.Good, "ht": ev.Ht,
-		"k1": r.kinds[0], "k2": r.kinds[1]}
+		"amt": ev.Amt, "tot": ev.Tot, "exp": ev.Exp, "set": ev.Set, "good": ev.Good, "cs": ev.Cs, "ht": ev.Ht,
+		"k1": r.kinds[0], "k2": r.kinds[1], "kp": r.kp, "ck": r.keyClasses()}
+}
+
+// keyClasses: the value classes of the concrete circuit keys of this run.
+func (r *c15Run) keyClasses() []verifkit.Rec {
+	out := make([]verifkit.Rec, c15NC)
+	for c := 1; c <= c15NC; c++ {
+		out[c-1] = c15KeyClass(r.keys[c])
+	}
+	return out
 }
 
 // step executes one sequential event and emits its record.
@@ -543,7 +704,7 @@ func (r *c15Run) step(out *verifkit.Writer, ev *c15Ev) {
 			r.t.Fatalf("replay of unknown circuit %d", ev.C)
 		}
 		// echo the parameters of the replayed HTLC
-		for _, f := range []string{"pl", "h", "ad", "amt", "tot", "exp", "set", "good"} {
+		for _, f := range []string{"pl", "h", "ad", "amt", "tot", "exp", "set", "good", "cs"} {
 			rec[f] = r.base15(p, 0)[f]
 		}
 		res, hash, err := r.call(p, ev.Ht)
@@ -579,19 +740,26 @@ func (r *c15Run) step(out *verifkit.Writer, ev *c15Ev) {
 func c15Stores() []string { return strings.Split(verifkit.Env("VERIF_STORES", "kv"), ",") }
 
 // TestVerifC15Replay replays TLC-generated behaviours of spec/InvoiceRegistry.
+// VERIF_SCHED = "<dir>" (part "trace") or "<part>=<dir>,<part>=<dir>": every
+// part is replayed on every store and recorded in <part>_<store>.ndjson.
 func TestVerifC15Replay(t *testing.T) {
-	dir := os.Getenv("VERIF_SCHED")
-	files := verifkit.ListFiles(dir, "b_", ".ndjson")
-	if len(files) == 0 {
-		t.Fatalf("no schedules in %q", dir)
-	}
-	for _, store := range c15Stores() {
-		c15Replay(t, store, files)
+	for _, item := range strings.Split(os.Getenv("VERIF_SCHED"), ",") {
+		part, dir := "trace", item
+		if i := strings.Index(item, "="); i >= 0 {
+			part, dir = item[:i], item[i+1:]
+		}
+		files := verifkit.ListFiles(dir, "b_", ".ndjson")
+		if len(files) == 0 {
+			t.Fatalf("no schedules in %q", dir)
+		}
+		for _, store := range c15Stores() {
+			c15Replay(t, part, store, files)
+		}
 	}
 }
 
-func c15Replay(t *testing.T, store string, files []string) {
-	out := verifkit.MustWriter(verifkit.Env("VERIF_OUT", ".") + "/trace_" + store + ".ndjson")
+func c15Replay(t *testing.T, part, store string, files []string) {
+	out := verifkit.MustWriter(verifkit.Env("VERIF_OUT", ".") + "/" + part + "_" + store + ".ndjson")
 	defer out.Close()
 	for fi, f := range files {
 		evs, err := verifkit.ReadNDJSONInto[c15Ev](f)
@@ -601,8 +769,8 @@ func c15Replay(t *testing.T, store string, files []string) {
 		if len(evs) == 0 {
 			continue
 		}
-		t.Run(fmt.Sprintf("%s-b%d", store, fi), func(t *testing.T) {
-			r := c15NewRun(t, store, evs[0].K1, evs[0].K2, verifkit.Seed()*100003+int64(fi))
+		t.Run(fmt.Sprintf("%s-%s-b%d", part, store, fi), func(t *testing.T) {
+			r := c15NewRun(t, store, evs[0].K1, evs[0].K2, evs[0].Kp, verifkit.Seed()*100003+int64(fi))
 			reset := r.base15(&c15Ev{A: "Reset", Pl: "none", Set: "none", Good: 1}, 0)
 			c15Blank(reset)
 			reset["file"] = f
@@ -620,6 +788,7 @@ func c15Replay(t *testing.T, store string, files []string) {
 // free-running driver
 
 var c15Kinds = []string{"regular", "noaddr", "hold", "holdna", "zeroamt", "amp", "keysend"}
+var c15KeyPatterns = []string{"plain", "alias", "chanonly", "edge", "bigid", "mixed"}
 
 func (r *c15Run) randomHtlc(c int, ht int) *c15Ev {
 	rng := r.rng
@@ -675,6 +844,9 @@ func (r *c15Run) randomHtlc(c int, ht int) *c15Ev {
 		ev.Pl, ev.H = "legacy", k
 	default:
 		ev.Pl, ev.H, ev.Ad = "mpp", k, k
+		if rng.Intn(3) == 0 {
+			ev.Pl = "blinded"
+		}
 		ev.Tot = 4 + rng.Intn(2)
 		if !likely {
 			switch rng.Intn(4) {
@@ -685,9 +857,15 @@ func (r *c15Run) randomHtlc(c int, ht int) *c15Ev {
 			case 2:
 				ev.Tot = 3
 			case 3:
-				ev.Pl, ev.Ad, ev.Tot = "legacy", 0, 0
+				ev.Pl, ev.Ad, ev.Tot = "legacy", 0, 4*rng.Intn(2)
 			}
 		}
+	}
+	// the interceptor client cancels the set (only for an HTLC whose reference
+	// is unambiguous: no MPP record / path id, or the right address)
+	if rng.Intn(12) == 0 && kind != "keysend" &&
+		(ev.Pl == "legacy" || ((ev.Pl == "mpp" || ev.Pl == "blinded" || ev.Pl == "amp") && ev.Ad == k)) {
+		ev.Cs = 1
 	}
 	return ev
 }
@@ -714,7 +892,8 @@ func c15Free(t *testing.T, store string) {
 			rng := rand.New(rand.NewSource(seed))
 			k1 := c15Kinds[rng.Intn(len(c15Kinds))]
 			k2 := c15Kinds[rng.Intn(len(c15Kinds))]
-			r := c15NewRun(t, store, k1, k2, seed)
+			kp := c15KeyPatterns[rng.Intn(len(c15KeyPatterns))]
+			r := c15NewRun(t, store, k1, k2, kp, seed)
 			reset := r.base15(&c15Ev{A: "Reset", Pl: "none", Set: "none", Good: 1}, 0)
 			c15Blank(reset)
 			reset["file"] = fmt.Sprintf("free-%d-%d", verifkit.Seed(), n)
@@ -759,7 +938,7 @@ func c15Free(t *testing.T, store string) {
 						for _, ev := range ops[link] {
 							p := r.memo[ev.C]
 							rec := r.base15(ev, link)
-							for _, f := range []string{"pl", "h", "ad", "amt", "tot", "exp", "set", "good"} {
+							for _, f := range []string{"pl", "h", "ad", "amt", "tot", "exp", "set", "good", "cs"} {
 								rec[f] = r.base15(p, 0)[f]
 							}
 							c15Blank(rec)
